@@ -352,6 +352,11 @@ void ExpressionBuilder::expr_call_end(uint32_t n)
         if (expr.size() - 1 != id.get_type().size()) {
             handle_error(TypeException{"$Wrong_number_of_arguments"});
         }
+        if (id.get_symbol() == symbol_t()) {  // e.g. "(-P)(0)": the type of a process set, but not its name
+            handle_error(TypeException{"$Function_expected"});
+            e = make_constant(0);
+            break;
+        }
         instance = static_cast<instance_t*>(id.get_symbol().get_data());
 
         /* Process set lookups are represented as expressions indexing
